@@ -304,5 +304,11 @@ def build (S : Scheme) (b : Builder) (pk : S.PK) (oracle : Option Bytes) : Res R
       if b'.rlpContent.length + sig.length + 8 > MAX_ENR_SIZE then .err .exceedsMaxSize
       else .ok { seq := b'.seq, nodeId := nodeIdOf S pk, content := b'.content, sig := sig }
 
+/-- What a call of `build` leaves behind in the builder whatever its outcome: the identity scheme
+    and the signer's public key have been added to the builder's content (the builder can be used
+    again). -/
+def afterBuild (S : Scheme) (b : Builder) (pk : S.PK) : Builder :=
+  { b with content := withPubkey S (Map.insert b.content kId (encBytes vV4)) pk }
+
 end Builder
 end EnrVerif
